@@ -36,7 +36,10 @@ class FindersProfile(StoreProfile):
     def gen(self, run, i):
         rng, m = run.rng, run.m
         if i == 0:
-            run.scratch["uni"] = self.plan_universe(run, run.store.clone(), run.params["n_entities"], mirror=True, data_p=0.15)
+            # attribute data on folders too: spil's own sidecars ('.bob.data.json') sit next to the entities, at levels
+            # whose names are unconstrained -- hidden files the searches must keep ignoring
+            run.scratch["uni"] = self.plan_universe(run, run.store.clone(), run.params["n_entities"], mirror=True, data_p=0.35,
+                                                    leaf_p=0.55)
         uni = run.scratch["uni"]
         if i < len(uni):
             return uni[i]
@@ -53,6 +56,13 @@ class FindersProfile(StoreProfile):
             extra = self.plan_universe(run, run.store.clone(), 1, mirror=True, data_p=0.1)
             if extra:
                 return extra[0]
+        if r < 0.22:
+            # attribute data on an entity of a level whose names are unconstrained (asset, node ...): spil's own
+            # sidecar then sits among the entities of that level as a hidden file
+            free = [e for e in ents if m.vocab(m.natural_type(e), m.by_name[m.natural_type(e)].keys[-1])[0] == "free"]
+            if free:
+                from .base import gen_data
+                return {"op": "write", "cfg": rng.choice(m.configs), "sid": rng.choice(free), "how": "set", "data": gen_data(rng, nmax=1)}
         if r < 0.40 and run.params["junk"]:
             st = self.plan_junk(run, run.store, run.params["junk_kinds"])
             if st:
